@@ -57,6 +57,8 @@ RETS = {
     "rb": dict(ty="-> &'b X", body="r", out="&X", ptr="&'b X", needs="rn"),
     # borrowed from the (only) reference argument, lifetime elided: possible without a borrowed dependency (no_deps, by-value deps)
     "rae": dict(ty="-> &X", body="r", out="&X", ptr="&'b X", needs="re", arg_elided=True),
+    # .. the same with the argument's lifetime NAMED and only the return type's elided
+    "raen": dict(ty="-> &X", body="r", out="&X", ptr="&'b X", needs="rn", arg_elided=True),
     "t": dict(ty="-> T", body="t", out="i64", ptr="i64", needs="ti"),
     "res": dict(ty="-> Result<i64, String>", body="Ok(1)", out="Result<i64, String>", ptr="Result<i64, String>"),
     "opt": dict(ty="-> Option<&'a i64>", body="Some(deps.num())", out="Option<&i64>", ptr="Option<&'a i64>", from_deps=True, named_a=True),
@@ -80,6 +82,13 @@ SPECIAL = {
     "static_ref_concrete": ("pub struct Cfg(pub i64); pub static CFG: Cfg = Cfg(5);\n    #[::entrait::entrait(pub Tr)] pub fn f(deps: &'static Cfg, a: i64) -> i64 { deps.0 + a }",
                             ['let app: &\'static ::entrait::Impl<Cfg> = ::std::boxed::Box::leak(::std::boxed::Box::new(::entrait::Impl::new(Cfg(5))));',
                              'rt::out("d", f(&CFG, 1)); rt::out("t", format!("{}", <Cfg as Tr>::f(&CFG, 1) + <::entrait::Impl<Cfg> as Tr>::f(app, 1) - 6));'], "6"),
+    "nodeps_nested_elided": ("pub struct H(pub &'static str);\n    #[::entrait::entrait(pub Tr, no_deps)] pub fn f(h: &H, n: usize) -> Option<&&str> { if n > 0 { Some(&h.0) } else { None } }",
+                             ['let app = ::entrait::Impl::new(());', 'let h = H("ab"); rt::out("d", f(&h, 1).unwrap().len()); rt::out("t", app.f(&h, 1).unwrap().len());'], "2"),
+    "const_before_type": ("#[::entrait::entrait(pub Tr)] pub fn f<const N: usize, T: Copy + Send + Sync + 'static>(deps: %s, a: [T; N]) -> usize { N }" % ANYD,
+                          ['let app = ::entrait::Impl::new(());', 'rt::out("d", f(&app, [1u8, 2])); rt::out("t", app.f([1u8, 2]));'], "2"),
+    "module_generics_in_different_orders": ("#[::entrait::entrait(pub Tr)] pub mod m { pub fn g<B: Default + ::core::fmt::Display, A: Default + ::core::fmt::Display>(deps: %s) -> String { format!(\"{}{}\", A::default(), B::default()) } "
+                                            "pub fn f<A: Default + ::core::fmt::Display, B: Default + ::core::fmt::Display>(deps: %s) -> String { format!(\"{}{}\", A::default(), B::default()) } }" % (ANYD, ANYD),
+                                            ['let app = ::entrait::Impl::new(());', 'rt::out("d", m::f::<u8, bool>(&app)); rt::out("t", Tr::<bool, u8>::f(&app));'], "0false"),
     "body_type_nodeps": ("#[::entrait::entrait(pub Tr, no_deps)] pub fn f<U: Default + ::core::fmt::Display, const N: usize>(a: i64) -> String { format!(\"{}{}{}\", U::default(), N, a) }",
                          ['let app = ::entrait::Impl::new(());', 'rt::out("d", f::<u8, 7>(1)); rt::out("t", Tr::<u8, 7>::f(&app, 1));'], "071"),
 }
@@ -245,7 +254,7 @@ def render(s):
     L.append("        let x = X(2); let mut mm = 5i64;")
     for name, path, is_trait in (("d", fpath, False), ("t", "Tr::f", True)):
         recv_ref = mkapp if byval else "&app"
-        if RETS[s["ret"]].get("needs") in ("rn", "re"):
+        if RETS[s["ret"]].get("needs") in ("rn", "re") and not RETS[s["ret"]].get("from_deps"):
             # the result borrows from the argument: the dependency may die first
             L.append("        let %s = { let app = %s; format!(\"{:?}\", %s) };" % (name, mkapp, call(path, recv_ref, is_trait)))
             L.append("        let _w_%s: &X = { let app = %s; %s };" % (name, mkapp, call(path, recv_ref, is_trait)))
@@ -281,7 +290,7 @@ def render(s):
 def model(s):
     if s.get("special"):
         return dict(compiles=True, d=SPECIAL[s["special"]][2], t=SPECIAL[s["special"]][2])
-    v = {"unit": "()", "i64": "1", "rde": "7", "rdn": "7", "rb": "X(2)", "rae": "X(2)", "t": "3", "res": "Ok(1)", "opt": "Some(7)", "imp": "1"}[s["ret"]]
+    v = {"unit": "()", "i64": "1", "rde": "7", "rdn": "7", "rb": "X(2)", "rae": "X(2)", "raen": "X(2)", "t": "3", "res": "Ok(1)", "opt": "Some(7)", "imp": "1"}[s["ret"]]
     return dict(compiles=True, d=v, t=v)
 
 
